@@ -78,6 +78,9 @@ ACTIONS = {
     'incr': lambda t: 'a[i] += 3; write(a[i]);' if t in ('int', 'byte') else None,
     'own': lambda t: 'write(own(n));',
     'writes': lambda t: "write(n); write('c'); write(n > 0); write(\"str\"); writeln(-n);",
+    # a one-byte slot is the deepest point of the frame
+    'writebool': lambda t: "write(n > 0);",
+    'bytelocal': lambda t: "byte last = (n + 65) is byte; write(last);",
     'writemin': lambda t: "int mn = 1; while (mn > 0) { mn = mn * 2; } write(mn);",
     'writearr': lambda t: 'write(a);' if t == 'byte' else None,
     'rec': lambda t: 'write(rec(n));',
@@ -107,9 +110,9 @@ def programs():
                     continue
                 if an == 'nothing' and kind != 'littemp':
                     continue
-                if kind in ('litvla', 'deepvla') and (an not in ('index', 'own', 'writes') or si == 1):
+                if kind in ('litvla', 'deepvla') and (an not in ('index', 'own', 'writes', 'writebool') or si == 1):
                     continue
-                if kind != 'none' and si == 1 and an not in ('index', 'writes', 'writemin', 'nothing'):
+                if kind != 'none' and si == 1 and an not in ('index', 'writes', 'writemin', 'nothing', 'writebool'):
                     continue        # middle scalar variant only with the two cheapest actions
                 body = f"{sc} {decl} write('<'); {act} write('>'); {dump} {scd}"
                 src = PRE + f'empty @is_you(int n, int i) {{ {body} }}\n'
